@@ -174,11 +174,12 @@ def off_family(ctx, n):
     return out
 
 
-def run_impl(cases, families=True):
+def run_impl(cases, families=True, one_process=False):
     for i, c in enumerate(cases):
         c["id"] = i
-    payloads = [{"cases": [{"id": c["id"], "crystal": c["crystal"], "tol": c["tol"]} for c in cases[i::JOBS]], "families": families}
-                for i in range(JOBS)]
+    nj = 1 if one_process else JOBS
+    payloads = [{"cases": [{"id": c["id"], "crystal": c["crystal"], "tol": c["tol"]} for c in cases[i::nj]], "families": families}
+                for i in range(nj)]
     payloads = [p for p in payloads if p["cases"]]
     outs = C.impl_run_parallel("c07_impl", payloads, jobs=JOBS)
     rows = {r["id"]: r for o in outs for r in o["cases"]}
@@ -253,6 +254,9 @@ def c07_failures(r):
         bad.append("letters_family")
     if p.get("classes_spglib") is False:
         bad.append("classes_spglib")
+    if p.get("analyzer_reuse") is False and any(k in ("sets", "letters", "equiv", "conv_numbers", "number") or k.startswith("raised")
+                                                 for k in r.get("reuse", {}).get("differs_in", [])):
+        bad.append("analyzer_reuse(one analyzer fed successive crystals through set_system answers differently from a fresh one)")
     return bad
 
 
@@ -314,7 +318,7 @@ def shrink_and_confirm(case, fails_fn):
 def report_case(ctx, kind, case, row, extra=None, found_input=True):
     rep = {"kind": kind, "crystal": case["crystal"], "tol": case["tol"], "sg": case.get("sg"), "variant": case["variant"],
            "call": "SymmetryAnalyzer(Atoms(numbers, cell, scaled_positions, pbc=True), symmetry_tol=tol)",
-           "implementation": {k: row.get(k) for k in ("error", "sets", "letters", "equiv", "perm", "identity", "c07", "c12", "contract") if k in row}}
+           "implementation": {k: row.get(k) for k in ("error", "sets", "letters", "equiv", "perm", "identity", "c07", "c12", "contract", "reuse") if k in row}}
     if extra:
         rep.update(extra)
     ctx.violation(rep, found_input=found_input)
@@ -471,11 +475,21 @@ def run(ctx):
                        "searched": "property predicates evaluated on %d crystals of the family: no failing input" % len(cases)}, found_input=False)
 
 
+def replay_rows(rep, case):
+    """re-runs the case; when the replay records a history (the crystal the shared analyzer saw before), that crystal is
+    analysed first in the same process"""
+    prev = ((rep.get("implementation") or {}).get("reuse") or {}).get("previous_crystal")
+    if prev:
+        c0 = {"crystal": prev, "tol": case["tol"], "sg": None, "variant": "replay-history", "base": None}
+        return run_impl([c0, case], True, one_process=True)[1]
+    return run_impl([case], True)[0]
+
+
 def replay(ctx, rep):
     build = S.build()
     if "crystal" in rep:
         case = {"crystal": rep["crystal"], "tol": rep.get("tol", TOL), "sg": rep.get("sg"), "variant": "replay", "base": None}
-        r = run_impl([case], True)[0]
+        r = replay_rows(rep, case)
         bad = "error" in r or bool(c07_failures(r))
         if not bad:
             failing, cerr = C.coq_case_files("c07replay", PREAMBLE, [(0, c07_term(r))])
